@@ -17,6 +17,9 @@ theorem OMap.slabIds_eq_keys (m : OMap r) : m.slabIds = AList.keys (MTree.slabs 
 theorem OMap.rootID_mem_slabIds (m : OMap r) : m.rootID ∈ m.slabIds := by
   rw [OMap.slabIds_eq_keys]; exact hdr_id_mem_keys m.d m.root
 
+instance (m : OMap r) (ctr : Nat) : Decidable (MapIdsOk m ctr) := by
+  unfold MapIdsOk IdsOk; infer_instance
+
 namespace MapIdsOk
 
 theorem ctxOk {m : OMap r} {c : Ctx} (h : MapIdsOk m c.ctr) : CtxOk m c :=
@@ -144,5 +147,14 @@ theorem mapIdsOk_new (addr ty : Nat) (seedOf : SlabID → Nat) (c : Ctx) :
   rw [hids, List.mem_singleton] at hid
   subst hid
   exact ⟨rfl, by simp, Nat.le_refl _⟩
+
+/-- `SetType` keeps the map invariant (only the type information changes) -/
+theorem mapInv_setType {m : OMap r} (h : MapInv T D m) (ty : Nat) (c : Ctx) :
+    MapInv T D (m.setType ty c).1 ∧ (m.setType ty c).1.toList = m.toList ∧
+      (m.setType ty c).1.count = m.count ∧ (m.setType ty c).1.ty = ty ∧ (m.setType ty c).1.seed = m.seed := by
+  refine ⟨⟨h.tree, h.chain, h.count_eq, h.distinct, ?_⟩, rfl, rfl, rfl, rfl⟩
+  have := h.standalone
+  obtain ⟨d, root, ty0, cnt, seed⟩ := m
+  cases d <;> exact this
 
 end Atree
